@@ -230,15 +230,33 @@ def r10_3(ctx):
     for inst, w, cons, code, text in audit['problems']:
         if code in ('unguarded', 'lockset') and inst.startswith('IOPort.'):
             ctx.fail('R10.3', inst, w, text + ' (the wrapper has no lock of its own and shares the queue of its input port)', construct=cons)
+    # methods that only constructors reach (a set-up helper called from __init__) count as construction
+    ctor_only = set()
+    changed = True
+    while changed:
+        changed = False
+        for c in fam:
+            for name in c.methods:
+                if name == '__init__' or name in ctor_only or name.startswith('__'):
+                    continue
+                callers = [(k, g) for k in fam for g, gfn in k.methods.items()
+                           for cc in astq.calls(gfn.node)
+                           if isinstance(cc.func, ast.Attribute) and cc.func.attr == name]
+                if callers and all(g == '__init__' or g in ctor_only for _, g in callers):
+                    ctor_only.add(name)
+                    changed = True
     for c in fam:
         for name, fn in c.methods.items():
-            if name == '__init__':
+            if name == '__init__' or name in ctor_only:
                 continue
             for t, s in astq.stores_in(fn.node):
                 if unparse(t) == 'self._lock':
                     ctx.fail('R10.3', f'{c.name}.{name}.rebinds-lock', ctx.where(fn, s), 'the port lock is replaced after construction',
                              construct=f'{fn.qname}::rebinds-lock')
-    dl = ctx.p.cls(P, 'DummyLock')
+    d = ctx.p.resolve(ctx.p.module(P), 'DummyLock')        # defined in ports.py or imported into it
+    if d is None or d.kind != 'class':
+        raise AnalysisError('class DummyLock is not reachable from mido/ports.py')
+    dl = d.obj
     ctx.require('__enter__' in dl.methods and '__exit__' in dl.methods, 'R10.3', 'DummyLock', f'{dl.module.relpath}:{dl.node.lineno} DummyLock',
                 'DummyLock is not a context manager', construct=f'{dl.qname}::protocol')
 
